@@ -338,3 +338,77 @@ func init() {
 		}
 	}
 }
+
+// ---------- focused streams ----------
+
+func init() {
+	streams["quant"] = func(r *rng, n int) {
+		ops := []string{"Quantize", "Quantize", "RoundToIntegralValue", "RoundToIntegralExact", "Ceil", "Floor"}
+		for i := 0; i < n; i++ {
+			emit(runArith(r.genArithCase(ops, 6, true, true)))
+		}
+	}
+	streams["div"] = func(r *rng, n int) {
+		ops := []string{"QuoInteger", "Rem"}
+		for i := 0; i < n; i++ {
+			emit(runArith(r.genArithCase(ops, 4, true, false)))
+		}
+	}
+	// exhaustive enumeration of the special-operand cells: every operation x every pair of operand
+	// kinds (clean and dirty fields) x the eight modes + default x two contexts
+	streams["special"] = func(r *rng, n int) {
+		kinds := specialOperands()
+		ctxs := []apd.Context{
+			{Precision: 5, MaxExponent: 20, MinExponent: -20},
+			{Precision: 2, MaxExponent: 3, MinExponent: 0, Traps: apd.DefaultTraps},
+		}
+		rs := append(append([]apd.Rounder{}, roundings...), "")
+		for _, op := range arithOpsAll {
+			for _, c0 := range ctxs {
+				for _, rd := range rs {
+					c := c0
+					c.Rounding = rd
+					for _, x := range kinds {
+						if binaryOps[op] {
+							for _, y := range kinds {
+								if x.Form == apd.Finite && y.Form == apd.Finite && !x.IsZero() && !y.IsZero() {
+									continue
+								}
+								if mine() {
+									emit(runArith(&arithCase{Op: op, Ctx: c, X: x, Y: y, Alias: "n", DPre: new(apd.Decimal)}))
+								}
+							}
+						} else {
+							e := int32(r.rangeI(-2, 2))
+							if mine() {
+								emit(runArith(&arithCase{Op: op, Ctx: c, X: x, E: e, Alias: "n", DPre: new(apd.Decimal)}))
+							}
+						}
+					}
+				}
+			}
+		}
+		// plus random special-heavy cases under aliasing and dirty destinations
+		for i := 0; i < n; i++ {
+			emit(runArith(r.genArithCase(arithOpsAll, 55, true, true)))
+		}
+	}
+}
+
+func specialOperands() []*apd.Decimal {
+	var out []*apd.Decimal
+	for _, neg := range []bool{false, true} {
+		for _, f := range []apd.Form{apd.NaN, apd.NaNSignaling, apd.Infinite} {
+			out = append(out, mkDec(f, neg, big.NewInt(0), 0))
+			out = append(out, mkDec(f, neg, big.NewInt(999999), 17)) // dirty fields, as an overflow leaves them
+			out = append(out, mkDec(f, neg, big.NewInt(12), -3))
+		}
+		for _, e := range []int{0, -3, 4, -25, 30} {
+			out = append(out, mkDec(apd.Finite, neg, big.NewInt(0), e))
+		}
+		out = append(out, mkDec(apd.Finite, neg, big.NewInt(1), 0))
+		out = append(out, mkDec(apd.Finite, neg, big.NewInt(25), -1))
+		out = append(out, mkDec(apd.Finite, neg, big.NewInt(123456789), -4))
+	}
+	return out
+}
